@@ -94,8 +94,40 @@ def run(P: Program, R: Report, tier: str) -> None:
             filtered = rets_ and all(isinstance(r_.value, (ast.ListComp, ast.GeneratorExp)) and norm(r_.value.generators[0].iter).replace("enumerate(", "").rstrip(")") in f.params
                                      and r_.value.generators[0].ifs for r_ in rets_)
             if filtered:
-                R.undecided("R17.6", f, f.node, f"{f.name} works on a copy of the incoming column list",
-                            "the leftovers are returned as a filtered view of the incoming list: the consume/assign pairing of this step is not followed")
+                # consumed-set form.  A column stored for one key must not be offered to the next key: the structure the
+                # candidates come from has to be rebuilt / shrunk inside the key loop, or the store guarded by `not in consumed`.
+                consumed = {x_.id for r_ in rets_ for c_ in r_.value.generators[0].ifs for x_ in ast.walk(c_) if isinstance(x_, ast.Name)} - set(f.params) - {
+                    x_.id for r_ in rets_ for x_ in ast.walk(r_.value.generators[0].target) if isinstance(x_, ast.Name)}
+                bad = None
+                for lp in [x_ for x_ in ast.walk(f.node) if isinstance(x_, ast.For)]:
+                    for st_ in ast.walk(lp):
+                        if not (isinstance(st_, ast.Assign) and isinstance(st_.targets[0], ast.Subscript) and norm(st_.targets[0].value) == mapping):
+                            continue
+                        v = st_.value
+                        if norm(v) == norm(st_.targets[0].slice):
+                            continue  # the key's own name: distinct keys take distinct columns
+                        src_names = {x_.id for x_ in ast.walk(v) if isinstance(x_, ast.Name)}
+                        # follow one definition step:  best = table[closest[0]]
+                        for d_ in ast.walk(lp):
+                            if isinstance(d_, ast.Assign) and any(isinstance(t_, ast.Name) and t_.id in src_names for t_ in d_.targets):
+                                src_names |= {x_.id for x_ in ast.walk(d_.value) if isinstance(x_, ast.Name)}
+                        tables = [d_ for d_ in ast.walk(f.node) if isinstance(d_, ast.Assign) and any(isinstance(t_, ast.Name) and t_.id in src_names for t_ in d_.targets)
+                                  and isinstance(d_.value, (ast.DictComp, ast.ListComp, ast.SetComp)) and norm(d_.value.generators[0].iter) in f.params]
+                        for tb in tables:
+                            inside = any(x_ is tb for x_ in ast.walk(lp))
+                            excludes = any(isinstance(x_, ast.Name) and x_.id in consumed for x_ in ast.walk(tb.value))
+                            shrunk = any(isinstance(x_, (ast.Delete,)) or (isinstance(x_, ast.Call) and call_name(x_) in ("pop", "remove", "discard") and norm(x_.func.value) == norm(tb.targets[0]))
+                                         for x_ in ast.walk(lp))
+                            guarded = any(any(nm in g_ and "not in" in g_ for nm in consumed) for g_ in guards_of(f, st_))
+                            if not ((inside and excludes) or shrunk or guarded):
+                                bad = (st_, tb)
+                if bad is not None:
+                    R.fail("R17.2", f, bad[0], f"{f.name}: a stored column is no longer offered to the following keys",
+                           f"`{norm(bad[0])[:60]}` takes its column from `{norm(bad[1].targets[0])}`, which is built once from all incoming columns and never shrunk; the consumed set "
+                           f"{sorted(consumed)} only filters the returned leftovers: one column can be assigned to two keys")
+                else:
+                    R.undecided("R17.6", f, f.node, f"{f.name} works on a copy of the incoming column list",
+                                "the leftovers are returned as a filtered view of the incoming list: the consume/assign pairing of this step is not followed")
             else:
                 R.fail("R17.6", f, f.node, f"{f.name} works on a copy of the incoming column list", "no copy of the incoming list is made: leftovers cannot be tracked")
             continue
